@@ -43,11 +43,11 @@ CLAIMS = {
         "note": TRUST,
     },
     "C06": {
-        "text": "maximize is compared with an independent reference cascade over tables re-derived from data/likelySubtags.json on every run: every CLDR entry K -> V by a symbolic row index (all rows at once, no loop), and every valid (language, script?, region?) against the reference's own binary search; the bool/None clause and the LanguageIdentifier wrapper are asserted too.",
+        "text": "maximize is compared with an independent reference cascade over tables re-derived from data/likelySubtags.json on every run: every CLDR entry K -> V of the five key shapes other than language-only by a symbolic row index (all rows of a table at once, no loop), every valid (script?, region?) with an undetermined language, and every valid (script?, region?) with the concrete languages zh, sr and qaa, against the reference's own binary search; the bool/None clause and the LanguageIdentifier wrapper are asserted too. Lookups of a symbolic language in the 7143-row table are outside the claim (see level_note); the rows of that table are decided under C18.",
         "note": TRUST + " Reference tables come from tools/cldr_ref.py (own JSON -> integer packer); C18 decides the compiled tables equal them.",
     },
     "C07": {
-        "text": "Purely algebraic laws of the real maximize on every valid symbolic triple: given subtags kept, all three present afterwards, bool <=> found, false => unchanged, variants untouched; idempotence follows from 'all three present afterwards' plus the separately decided 'a full triple is a fixed point'.",
+        "text": "Purely algebraic laws of the real maximize on every valid (script?, region?) with an undetermined language and with the concrete languages zh and qaa: given subtags kept (an unknown language is never replaced by a table language), all three present afterwards, bool <=> found, false => unchanged, variants untouched.",
         "note": TRUST,
     },
     "C08": {
@@ -83,7 +83,7 @@ CLAIMS = {
         "note": TRUST,
     },
     "C14": {
-        "text": "character_direction is decided against a model re-derived from the 710 CLDR layout files: every locale directory by symbolic row index in both feature configurations, plus the script-decides / non-RTL-language / variants-irrelevant clauses on arbitrary symbolic identifiers.",
+        "text": "character_direction is decided against a model re-derived from the 710 CLDR layout files: every locale directory whose answer needs no likely script by symbolic row index in both feature configurations, the script-less rows of RTL-listed languages and the script-decides / non-RTL-language / variants-irrelevant clauses on arbitrary symbolic identifiers in the configuration without likelysubtags.",
         "note": TRUST + " Reference derived by tools/cldr_ref.py.",
     },
     "C15": {
